@@ -387,20 +387,20 @@ package spdxexp
 //@   ensures[C05] result != nil ==> !spaceBefore(exp)
 //@   assert[C05] after licenseLookup#3: adjNonEmpty: ret != nil ==> len(license) >= 10
 //@   ensures[C06,C07] result != nil ==> okTok(result)
-//@   ensures[C09,C06] result != nil ==> (result.role == 3 || result.role == 4) && (occc(ActiveSeq(), ActiveLen(), result.value) || occc(ExceptionSeq(), ExceptionLen(), result.value) || occc(DeprecatedSeq(), DeprecatedLen(), result.value))
+//@   ensures[C09,C06,C07] result != nil ==> (result.role == 3 || result.role == 4) && (occc(ActiveSeq(), ActiveLen(), result.value) || occc(ExceptionSeq(), ExceptionLen(), result.value) || occc(DeprecatedSeq(), DeprecatedLen(), result.value))
 //@ end
 
 //@ func licenseLookup
 //@   modifies nothing
 //@   ensures[C05,C08,C09] result != nil <==> inAE(license)
-//@   ensures[C09,C06] result != nil ==> EqualFold(result.value, license) && ((result.role == 3 && occc(ActiveSeq(), ActiveLen(), result.value)) || (result.role == 4 && occc(ExceptionSeq(), ExceptionLen(), result.value)))
+//@   ensures[C09,C06,C07] result != nil ==> EqualFold(result.value, license) && ((result.role == 3 && occc(ActiveSeq(), ActiveLen(), result.value)) || (result.role == 4 && occc(ExceptionSeq(), ExceptionLen(), result.value)))
 //@   ensures[C05,C08,C09] result != nil ==> result.role == ite(inAct(license), 3, 4) && result.value == ite(inAct(license), canonAct(license), canonExc(license))
 //@ end
 
 //@ func deprecatedLicenseLookup
 //@   modifies nothing
 //@   ensures[C05,C08,C09] result != nil <==> inDep(license)
-//@   ensures[C09,C06] result != nil ==> EqualFold(result.value, license) && result.role == 3 && occc(DeprecatedSeq(), DeprecatedLen(), result.value)
+//@   ensures[C09,C06,C07] result != nil ==> EqualFold(result.value, license) && result.role == 3 && occc(DeprecatedSeq(), DeprecatedLen(), result.value)
 //@   ensures[C05,C08,C09] result != nil ==> result.value == canonDep(license)
 //@ end
 
@@ -451,7 +451,7 @@ package spdxexp
 //@ func inLicenseList
 //@   modifies nothing
 //@   ensures[C05,C08,C09] result0 <==> foldc(elems(licenses), len(licenses), id)
-//@   ensures[C09,C06] result0 ==> occc(elems(licenses), len(licenses), result1) && EqualFold(result1, id)
+//@   ensures[C09,C06,C07] result0 ==> occc(elems(licenses), len(licenses), result1) && EqualFold(result1, id)
 //@   ensures[C05,C09] result0 ==> (exists k :: 0 <= k && k < len(licenses) && result1 == licenses[k] && EqualFold(licenses[k], id))
 //@   ensures[C09] result0 <==> (exists k :: 0 <= k && k < len(licenses) && EqualFold(licenses[k], id))
 //@   ensures[C09] result0 ==> (exists k :: 0 <= k && k < len(licenses) && EqualFold(licenses[k], id) && result1 == licenses[k] && forall j :: 0 <= j && j < k ==> !EqualFold(licenses[j], id))
